@@ -591,3 +591,25 @@ def search(rng, tier, n, broken):
             yield _vary(rng, rng.choice(bases))
     for c in generate(rng, tier, n - k):
         yield c
+
+
+def extra_evidence(results):
+    grid = longs = stall = omitted = products = reuse = 0
+    for r in results:
+        if r.get("abnormal"):
+            continue
+        c, o = r["case"], r["obs"]
+        n = len(o["vals"])
+        if c.get("style") == ["float"] * 3 and c.get("call") == "kw" and c.get("draws") == ["seed", 1] and c["jitter"][0] == "omit":
+            grid += 1
+        if n >= 100:
+            longs += 1
+        if r.get("known"):
+            stall += 1
+        if c.get("omit_factor") and unhex(c["factor"]) == 2.0:
+            omitted += 1
+        if jitter_float(c["jitter"]) == 0 and n > 1:
+            products += n - 1
+    return {"small_scope_grid_cases": grid, "sequences_of_100_or_more_values": longs,
+            "cases_inside_stall_guard": stall, "calls_with_factor_omitted": omitted,
+            "successor_values_compared_bit_exactly_with_coq_binary64": products}
